@@ -488,7 +488,21 @@ P["C14"] = {"property": "C14", "level": "proof", "units": parse_units("C14", "C1
     vcp("C14", R_C02), vc("C14"),
 ]}
 P["C02"]["units"] += parse_units("C02", "C02") + [vc("C02")]
-P["C06"] = {"property": "C06", "level": "proof", "units": [
+# jwt_parse: BOUNDED stand-in.  The two dot-scanning loops were given loop contracts (payload/sig stay
+# inside the copy, the copy keeps its terminator); goto-instrument accepts them and every obligation is
+# discharged one at a time, but the whole formula needs > 38 GB (three attempts: slice frame, whole-object
+# frame with loop_entry invariants, recorded instead of performed free).  So the loops are unwound instead:
+# every token of fewer than N characters (all positions of the dots, all contents), unwinding assertions on.
+def parse_unit(N, tier):
+    return U("C06.bounded.jwt_parse_N%d" % N, "jwt_parse (libjwt/jwt-verify.c): every token shorter than %d characters" % N, VERIFY_C, "contracts/jwt_verify_c.h",
+      "jwt_t *jwt; size_t n; __CPROVER_assume(n < %d); char *t = VS(n); unsigned *l; jwt_parse(jwt, t, l);" % N,
+      "jwt_parse/contract_all_jwt_parse",
+      replace=["jwt_parse_head/contract_rec_jwt_parse_head", "jwt_parse_payload/contract_rec_jwt_parse_payload"],
+      stubs=VERIFY_JSON_STUBS + ["stubs/parse_env.c"], defines=["VERIF_TU_JWT_VERIFY", "VERIF_STRLEN_RECORD"], pre=[VS], flags=["--conversion-check"],
+      unwindset="jwt_parse.0:%d,jwt_parse.1:%d" % (N + 2, N + 2), kind="bounded", bound="token length < %d (loops unwound %d times, unwinding assertions on)" % (N, N + 2),
+      expect=["contract_all_jwt_parse\\.postcondition\\.9", "jwt_parse\\.unwind", "contract_rec_jwt_parse_head\\.precondition", "memcpy\\.assertion\\.1"],
+      timeout=900, timeout_thorough=3000, tier=tier)
+P["C06"] = {"property": "C06", "level": "proof", "units": [parse_unit(12, "quick"), parse_unit(28, "thorough"),
     U("C06.jwt_base64uri_decode_to_json", "jwt_base64uri_decode_to_json (libjwt/jwt-verify.c)", VERIFY_C, "contracts/jwt_verify_c.h",
       "size_t n; __CPROVER_assume(n < 0x10000000); char *h = VS(n); jwt_base64uri_decode_to_json(h);",
       "jwt_base64uri_decode_to_json/contract_jwt_base64uri_decode_to_json",
@@ -576,6 +590,19 @@ P["C07"]["units"].append(
       expect=["contract_C07_jwk_process_one\\.postcondition\\.3", "contract_shape_process_jwk\\.precondition"], timeout=900,
       replay={"driver": "replay/r_C17_jwks.c"}))
 P["C17"]["units"].append(dict(P["C07"]["units"][-1], name="C17.jwk_process_one"))
+P["C08"]["units"] += [
+    U("C08.jwk_key_op_j", "jwk_key_op_j (libjwt/jwks.c)", JWKS_C, "contracts/jwks_c.h",
+      "json_t *j; jwk_key_op_j(j);", "jwk_key_op_j/contract_shape_jwk_key_op_j",
+      replace=["jwt_strcmp/contract_shape_jwt_strcmp"], stubs=LIBC + ["stubs/alloc.c", "stubs/jansson.c"], defines=["VERIF_TU_JWKS"], flags=[],
+      expect=["contract_shape_jwk_key_op_j\\.postcondition\\.1", "contract_shape_jwt_strcmp\\.precondition"], timeout=300),
+    U("C08.jwk_process_values", "jwk_process_values (libjwt/jwks.c)", JWKS_C, "contracts/jwks_c.h",
+      "json_t *j; jwk_item_t *it; jwk_process_values(j, it);", "jwk_process_values/contract_C08_jwk_process_values",
+      replace=["jwt_strcmp/contract_exact_jwt_strcmp", "jwk_key_op_j/contract_shape_jwk_key_op_j", "jwt_str_alg/contract_C02_jwt_str_alg"],
+      stubs=LIBC + ["stubs/alloc.c", "stubs/jansson.c"], defines=["VERIF_TU_JWKS", "VERIF_ALLOC_RECORD_FAIL", "VERIF_STRLEN_RECORD", "VERIF_STRLEN_RECORD_ARG", "VERIF_STRCPY_MEASURED", "VJ_ARRAY_STATIC_ELEM"], flags=[], object_bits=10,
+      loops={"jwk_process_values": [{"loop_id": 0, "vars": ["i", "j_op", "item"], "assigns": "i, j_op, item->key_ops, g_vj_elem, __CPROVER_object_whole(g_vj_elem_str)", "invariants": ["1 == 1"],
+              "globals": {"g_vj_elem": "g_vj_elem", "g_vj_elem_str": "g_vj_elem_str"}}]},
+      expect=["contract_C08_jwk_process_values\\.postcondition\\.6", "jwk_process_values\\.loop_invariant_step", "contract_C02_jwt_str_alg\\.precondition"], timeout=900),
+]
 P["C09"]["units"] += [dict(jwkp_unit("C07", "openssl_process_rsa"), name="C09.openssl_process_rsa"),
                       dict(P["C08"]["units"][0], name="C09.process_octet")]
 
